@@ -86,6 +86,13 @@ Definition judge (s : scn) : sexp :=
   else if existsb (fun c => match c with (Some true, t) => t <? s_cancel s - 50 | _ => false end) cbs then
     L [sym "specfail"; sym "c11-cancelled-before-cancel"; L []]
   else
+  (* a panel that starts listening is found within one no-connection period (plus margin), whatever the
+     application does meanwhile (seed C11-16: submissions re-armed the wait) *)
+  if negb (match s_conns s with [] => true | _ => false end)
+     && (s_listen s + noconn (the_cfg s) + 2 * margin <=? s_cancel s)
+     && negb (match obs_accs o with a :: _ => a <=? s_listen s + noconn (the_cfg s) + margin | [] => false end) then
+    L [sym "specfail"; sym "c11-appears"; L (map I (obs_accs o))]
+  else
   match obs_ret o with
   | None => L [sym "specfail"; sym "c11-no-return"; L []]
   | Some tr =>
